@@ -339,7 +339,9 @@ Chk_HRecvRet(res, msg) ==
        \cup V(~(kind = "unary" /\ tr = "inproc" /\ hPend # <<>> /\ hPend[4]), "C06", "request-read-after-return")
        \cup V(~(tr = "http" /\ ~ReqStream /\ hPend # <<>> /\ hPend[2] >= 2), "C08", "second-request-accepted")
   ELSE IF res.k = "eof" THEN
-       V(closeSend, "C01", "request-eof-without-closesend")
+       \* (once the context has ended the request stream is broken anyway and
+       \* what a further receive reports is not constrained)
+       V(closeSend \/ cctx # "live", "C01", "request-eof-without-closesend")
        \cup V(ReqComplete \/ ~ReqStream, "C01", "request-eof-with-missing-messages")
   ELSE {}
 
